@@ -102,8 +102,8 @@ SCENARIOS = {
         "assumptions": ["the no-temp-file / no-descriptor clause rests on Rust's Drop; it is observed on the real process (fdcheck), not proved"],
     },
     "C11": {
-        "modules": ["C11", "C11Real", "C11Reported"],
-        "theorems": ["C11_round_f32_reported_euclidean", "C11_round_f32_cosine", "C11_round_f32_cosine_chk", "C11_cosine_zero_norm", "C11_cosine_range_real", "C11_f32_std_model_on", "C11_round_f32_dot_product", "C11_round_f32_euclidean_distance", "C11_round_f32_manhattan_distance",
+        "modules": ["C11", "C11Real", "C11Reported", "C11Reported2"],
+        "theorems": ["C11_round_f32_reported_manhattan", "C11_round_f32_reported_dot", "C11_reported_symm", "C11_reported_self_zero", "C11_round_f32_reported_euclidean", "C11_round_f32_cosine", "C11_round_f32_cosine_chk", "C11_cosine_zero_norm", "C11_cosine_range_real", "C11_f32_std_model_on", "C11_round_f32_dot_product", "C11_round_f32_euclidean_distance", "C11_round_f32_manhattan_distance",
                      "C11_mul_std", "C11_add_std", "C11_fma_std", "C11_div_std", "C11_sqrt_std", "C11_cover_dot_scalar", "C11_cover_dot_sse", "C11_cover_dot_avx", "C11_cover_euclid_scalar", "C11_cover_euclid_sse",
                      "C11_cover_euclid_avx", "C11_dispatch", "C11_symm", "C11_self_zero_euclid", "C11_self_zero_manhattan",
                      "C11_cosine_range", "C11_round", "C11_round_simd"],
@@ -143,8 +143,8 @@ SCENARIOS = {
         "assumptions": ["each atomic cell is sequentially consistent in the model (Relaxed orderings beyond per-operation atomicity are not modelled)"],
     },
     "C14": {
-        "modules": ["C14", "C14Fair", "C14FairBuild", "Unconditional", "Reachable"],
-        "theorems": ["C14_fair_round_decreases", "C14_round_above_cap_decreases", "C14_round_measure", "C14_terminates_above_cap", "C14_fair_terminates", "C14_fuel_needs_small_batch", "C14_fuel_needs_unfair_round", "C14_build_terminates_above_cap", "C14_build_terminates_fair", "C14_any_memory_forest", "C14_any_memory", "C14_insert_terminates", "C14_makeT_fuel", "C14_resplit_makes_node", "C14_livelock_before_fix",
+        "modules": ["C14", "C14Fair", "C14FairBuild", "C14Bound", "Unconditional", "Reachable"],
+        "theorems": ["C14_loop_measure_bound", "C14_build_terminates_explicit", "C14_build_terminates_ntrees", "C14_build_terminates_default", "C14_fair_round_decreases", "C14_round_above_cap_decreases", "C14_round_measure", "C14_terminates_above_cap", "C14_fair_terminates", "C14_fuel_needs_small_batch", "C14_fuel_needs_unfair_round", "C14_build_terminates_above_cap", "C14_build_terminates_fair", "C14_any_memory_forest", "C14_any_memory", "C14_insert_terminates", "C14_makeT_fuel", "C14_resplit_makes_node", "C14_livelock_before_fix",
                      "C14_build_fuel_forest", "C14_reify_total", "C14_deleteTree_total"],
         "quick": [hist("c14", 125, extra=T1, timeout=900), hist("c14inc", 12, extra=T1, timeout=900), hist("c14first", 20, extra=T1, timeout=900)],   # 125 = the whole grid items x split_after x memory
         "thorough": [hist("c14", 600, "thorough", extra=T1, timeout=3400), hist("c14", 100, "thorough", timeout=3400),
@@ -187,7 +187,8 @@ SCENARIOS = {
         "assumptions": ["bounded build time on degenerate data is observed (poll limit), termination of the re-split loop being probabilistic"],
     },
     "C19": {
-        "theorems": ["C19_dim_add", "C19_dim_append", "C19_dim_query", "C19_append", "C19_del_absent", "C19_needBuild_unchanged"],
+        "modules": ["C19", "C19History"],
+        "theorems": ["C19_append_accepted_iff", "C19_rejected_history", "C19_rejected_item_calls", "C19_query_dim_history", "C19_dim_add", "C19_dim_append", "C19_dim_query", "C19_append", "C19_del_absent", "C19_needBuild_unchanged"],
         "quick": [hist("c19", 150, extra=T1)],
         "thorough": [hist("c19", 1000, "thorough", extra=T1)],
         "counts": ["C19"],
